@@ -173,7 +173,7 @@ func runCast(c cast, rounds int, announce bool) (string, castStats) {
 		mats := make([]material, len(c.Workers))
 		solo := runSolo(c, tag, mats)
 		if len(solo.failures) > 0 {
-			failure = "a worker failed when run ALONE (not an interference; harness self-check):\n  " + strings.Join(solo.failures, "\n  ")
+			failure = "a worker misbehaved already when run ALONE (one after the other, nothing else running; state left behind by an earlier worker, or a defect of the pipeline itself):\n  " + strings.Join(solo.failures, "\n  ")
 			return
 		}
 		if announce {
@@ -255,7 +255,7 @@ func recordCase(sec *vk.Section, c cast, st castStats) {
 func TestInterference(t *testing.T) {
 	sec := vk.Sec(t.Name())
 	procs := procsOfTier()
-	vk.Check(t, 90, 6400, func(rt *rapid.T) {
+	vk.Check(t, 110, 12000, func(rt *rapid.T) {
 		c := genCast(rt, procs)
 		rounds := c.Rounds
 		if sawFailure.Load() || replaying() {
@@ -293,7 +293,7 @@ func pinnedHeaderCast(n int) cast {
 func TestPinnedHeaderBufferReuse(t *testing.T) {
 	sec := vk.Sec(t.Name())
 	c := pinnedHeaderCast(24)
-	rounds := vk.Pick(25, 400) / vk.Shards()
+	rounds := vk.Pick(25, 1600) / vk.Shards()
 	if rounds < 10 {
 		rounds = 10
 	}
